@@ -228,6 +228,13 @@ def build_corpus(app):
     add('put existing consumer, changed project/user/type, two providers', op='alloc_put', v=39,
         **s.entry('c3', {'p1': {'VCPU': 2}, 'p2': {'DISK_GB': 5}}, project='proj2', user='user2', ctype='MIGRATION'))
     add('put empty (remove)', op='alloc_put', v=39, **s.entry('c3', {}))
+    add('put empty for a consumer that does not exist', op='alloc_put', v=39, **s.entry('c2', {}, cgen=-1))
+    add('post empty for a consumer that does not exist, with another one', op='alloc_post', v=39,
+        entries=[s.entry('c2', {}, cgen=-1), s.entry('c1', {'p1': {'VCPU': 1}}, cgen=-1)])
+    add('put naming an unknown provider for a new consumer', op='alloc_put', v=39,
+        **s.entry('c2', {'p9': {'VCPU': 1}}, cgen=-1))
+    add('put rejected for capacity, new consumer', op='alloc_put', v=39,
+        **s.entry('c2', {'p1': {'VCPU': 2000}}, cgen=-1))
     add('put below 1.8 (placeholder project)', op='alloc_put', v=7, **s.entry('c2', {'p1': {'VCPU': 1}}, cgen=-1))
     add('post two consumers', op='alloc_post', v=39,
         entries=[s.entry('c1', {'p1': {'VCPU': 1}}, cgen=-1),
